@@ -144,7 +144,7 @@ func writeEvidence(p *PropCfg, tier string, seed int, runs []harnessRun, validat
 	if err != nil {
 		return err
 	}
-	dir := filepath.Join(verifDir, "evidence")
+	dir := filepath.Join(outDir, "evidence")
 	os.MkdirAll(dir, 0o755)
 	return os.WriteFile(filepath.Join(dir, p.ID+".json"), data, 0o644)
 }
